@@ -101,10 +101,8 @@ def base_for(kind, rng):
     sp = G.easy_spec(rng, rank=rank, L=128, dr=0.1, eta_max=0.22)
     if kind == 'split_monatomic':
         sp['om'][G.pk('A', 'A')] = {'t': 'SS'}
-    if kind == 'permutation' and rng.random() < 0.5:
-        kgrid = R.grids(sp['L'], sp['dr'])[1]
-        for (i, j), (a, b) in G.pairs(sp['types'], diagonal=False):
-            sp['om'][G.pk(a, b)] = {'t': 'ARR', 'w': (float(rng.uniform(0.1, 0.6)) * np.exp(-kgrid * float(rng.uniform(0.3, 1.0)))).tolist()}
+    if kind in ('permutation', 'rescale') and rng.random() < 0.6:
+        G.add_cross_omegas(sp, rng, amp=(0.1, 0.6))
     return sp
 
 
